@@ -88,9 +88,12 @@ PROPS = {
                        'finders and is checked by bounded exhaustive enumeration.',
     },
     'C03': {
-        'units': ['U2', 'U23', 'U17'], 'level': 'other', 'trusted': ['A1', 'A5', 'A6', 'A7', 'A11', 'A12', 'R17'], 'bec_flavors': ['default'],
+        'units': ['U2', 'U23', 'U17', 'U11'], 'level': 'other', 'trusted': ['A1', 'A5', 'A6', 'A7', 'A9', 'A11', 'A12', 'A17', 'R17'], 'bec_flavors': ['default'],
         'proved_part': 'Verus: prefix sums are the left fold of width+whitespace; the closure passed to SMAWK returns exactly the documented cost (per-line penalty, squared gap '
-                       'except on the last line, linear overflow penalty, short-last-line penalty, hyphen penalty) over uninterpreted IEEE operations; the result is an ordered partition.',
+                       'except on the last line, linear overflow penalty, short-last-line penalty, hyphen penalty) over uninterpreted IEEE operations; the result is an ordered partition (U2). '
+                       'Last sentence ("wrap/fill ... produce, for each paragraph, such an arrangement of that paragraph\'s fragments"): the dispatch hands the words, every listed width '
+                       'and the penalties to wrap_optimal_fit unchanged (U17), and the lines wrap returns for a paragraph are exactly the runs the dispatch returns for para_words(paragraph) at '
+                       'the widths of the indents actually rendered (U11\'s functional postcondition) — so whatever is true of wrap_optimal_fit\'s arrangement is true of wrap\'s lines.',
         'bounded_part': 'BEC: minimality — cost(returned) == minimum over all 2^(n-1) arrangements in exact integer arithmetic and <= cost(first-fit), exhaustive for short '
                         'sequences, sampled for longer ones. Optimality itself needs real arithmetic and total monotonicity and is NOT proved.',
         'explanation': 'Mixed: the cost model and the structure are proved; minimality is bounded-only (Verus has no float theory; SMAWK\'s guarantee needs total monotonicity).',
